@@ -9,3 +9,9 @@ TRUSTED = ['A1', 'A2', 'A5', 'A6', 'UF']
 
 def jobs(tier):
     return jobs_for('C10', MODULES, tier)
+
+
+def extra(tier, seed):
+    from fvverif.lean import lemma_status
+    ok, detail = lemma_status(['telescope'], rebuild=(tier == 'thorough'))
+    return [('lean lemma telescope (per-cell volumes sum to the domain volume)', ok, 'lean:' + detail)]
